@@ -179,6 +179,8 @@ Flat(ls, ss) == IF ls = <<>> THEN <<>> ELSE Head(ls) \o Head(ss) \o Flat(Tail(ls
 \*   gomix / shmix     sequences over a small pool of semicolon-relevant lexemes, every separator
 \*   gopairs / shpairs sequences over the full pool, separators "", " ", "\n"
 \*   gomix3 / shmix3   triples over the small pool, separators "", "\n" and one line comment
+\*   div               triples over a 1 ) / /= * with "", " " and general comments in between
+\*   linedir           one or two line-directive comments (or the identifier a), separators "", "\n"
 GoAll == PoolGoOps \cup PoolKw \cup PoolIdents \cup PoolNums \cup PoolStrs
 ShAll == (PoolGoOps \ {<<126>>}) \cup PoolXOps \cup PoolIdents \cup PoolNums \cup PoolStrs
 GoMix == {<<97>>, <<49>>, <<41>>, <<33>>, <<46, 46, 46>>, <<40>>, <<43, 43>>, <<60>>, <<62>>, <<45>>,
@@ -188,14 +190,23 @@ ShMix == {<<97>>, <<49>>, <<41>>, <<33>>, <<46, 46, 46>>, <<40>>, <<42>>, <<60>>
           <<61>>, <<63>>, <<49, 109>>, <<34, 97, 34>>, <<59>>, <<123>>, <<125>>}
           \* a 1 ) ! ... ( * < > - = ? 1m "a" ; { }
 PlainSeps == {<<>>, <<32>>, <<10>>}
+\* "div": previous token, operator, operand with general comments in between -- the look-ahead findLineEnd must
+\* leave the scanner where it was when a `/` or `/=` (not a comment) follows a newline-free /* */ comment
+DivPool == {<<97>>, <<49>>, <<41>>, <<47>>, <<47, 61>>, <<42>>}              \* a 1 ) / /= *
+DivSeps == {<<>>, <<32>>, <<32, 47, 42, 99, 42, 47, 32>>, <<47, 42, 99, 42, 47>>,
+            <<32, 47, 42, 99, 42, 47, 32, 47, 42, 100, 42, 47, 32>>}           \* "" " " " /*c*/ " "/*c*/" " /*c*/ /*d*/ "
 Pool == CASE Gen \in {"goone", "gopairs"} -> GoAll
           [] Gen \in {"gomix", "gomix3"} -> GoMix
           [] Gen \in {"shone", "shpairs"} -> ShAll
           [] Gen \in {"shmix", "shmix3"} -> ShMix
+          [] Gen = "div" -> DivPool
+          [] Gen = "linedir" -> PoolLineDir \cup {<<97>>}
           [] OTHER -> {}
 Seps == CASE Gen \in {"goone", "gomix"} -> PoolSeps
           [] Gen \in {"shone", "shmix"} -> PoolSeps \cup PoolSharp
           [] Gen \in {"gopairs", "shpairs"} -> PlainSeps
+          [] Gen = "div" -> DivSeps
+          [] Gen = "linedir" -> {<<>>, <<10>>}
           [] Gen = "gomix3" -> {<<>>, <<10>>, <<47, 47, 99, 10>>}      \* "" "\n" "//c\n"
           [] Gen = "shmix3" -> {<<>>, <<10>>, <<35, 99, 10>>}          \* "" "\n" "#c\n"
           [] OTHER -> {<<>>}
